@@ -1,6 +1,26 @@
-(* C09 - Lower-priority work never disturbs higher-priority work (placeholder until Proofs/SchedPrio.v). *)
+(* C09 - Lower-priority work never disturbs higher-priority work (scheduler model, every project):
+   appending a task x that has strictly the lowest priority, on which nothing depends and which lies in no
+   container, leaves the dates of EVERY other task (leaf or container) unchanged, the horizon being the
+   same (p_upper is not changed by [extend]).  x itself may have any effort, team, limits, pinned start
+   and dependencies ON other tasks.  The proof is a simulation of the two runs: x is last in the sorted
+   work list, so it is picked only when no other remaining task is ready, and placing it makes nothing
+   ready.  Other declaration positions of x and sub-slot efforts are covered by the two-run comparison on
+   the implementation (harness/props/c09.py). *)
 From Coq Require Import List Arith ZArith.
-Require Import SP.Model.Sched SP.Proofs.SchedFinal.
-(* the work list is sorted by priority: a task is inserted before the first task of strictly lower priority *)
-Theorem C09_sorted_insert : forall p t l x, In x (insert p t l) <-> x = t \/ In x l.
-Proof. exact insert_in. Qed.
+Require Import SP.Model.Sched SP.Proofs.SchedPrio.
+
+Theorem C09_lowest_priority_harmless : forall (p : project) (x : task),
+  t_leaf x = true ->
+  (forall t, t < length (p_tasks p) -> (t_prio x < t_prio (task_of p t))%Z) ->
+  (forall t d, t < length (p_tasks p) -> In d (t_deps (task_of p t)) -> d_task d <> length (p_tasks p)) ->
+  (forall t, t < length (p_tasks p) -> ~ In (length (p_tasks p)) (t_leaves (task_of p t))) ->
+  forall u, u <> length (p_tasks p) ->
+    dates (extend p x) (schedule (extend p x)) u = dates p (schedule p) u.
+Proof. intros p x H1 H2 H3 H4 u Hu. now apply lowest_priority_harmless. Qed.
+Print Assumptions C09_lowest_priority_harmless.
+
+(* the new task is served last: it is the last element of the sorted work list *)
+Theorem C09_served_last : forall (p : project) (x : task),
+  t_leaf x = true -> (forall t, t < length (p_tasks p) -> (t_prio x < t_prio (task_of p t))%Z) ->
+  sorted_leaves (extend p x) = sorted_leaves p ++ (length (p_tasks p) :: nil).
+Proof. intros p x H1 H2. now apply sorted_leaves_extend. Qed.
